@@ -110,6 +110,14 @@ def build(S):
                 for k in ('pair_coeffs', 'atom_type_elements', 'positions') + tuple(k + '_type_coeffs' for k, _ in AM.KINDS) + tuple(AM.PLURAL[k] for k, _ in AM.KINDS):
                     I.assume(f[k].length >= 1)
                 I.assume(f['pair_coeffs'].length == f['atom_type_elements'].length)
+            elif scen['name'] == 'tables-without-terms':
+                # coefficient tables of kinds that currently have no terms (e.g. after every bond was deleted) are still part of the structure
+                for k in ('pair_coeffs', 'atom_type_elements', 'positions') + tuple(k + '_type_coeffs' for k, _ in AM.KINDS):
+                    I.assume(f[k].length >= 1)
+                I.assume(f['pair_coeffs'].length == f['atom_type_elements'].length)
+                for k, _ in AM.KINDS:
+                    I.assume(f[AM.PLURAL[k]].length == 0)
+                I.state.heap[ref.oid]['cell'] = None
             else:
                 for k in ('pair_coeffs',) + tuple(k + '_type_coeffs' for k, _ in AM.KINDS) + tuple(AM.PLURAL[k] for k, _ in AM.KINDS):
                     I.assume(f[k].length == 0)
@@ -120,7 +128,7 @@ def build(S):
         def lit(w):
             return w if isinstance(w, str) else None
 
-        for name in ('full-structure', 'bare-structure'):
+        for name in ('full-structure', 'bare-structure', 'tables-without-terms'):
             scen['name'] = name
             paths = I.explore(thunk, max_paths=3000)
             complete = [p for p in paths if p.outcome == 'return']
@@ -176,7 +184,9 @@ def build(S):
                         S.add(I, "%s/box/no-tilt-line-only-for-orthorhombic-cells#%d" % (tag, n), p.pc, z3.Not(offdiag), clause='tilt factors')
                 # section headers appear in LAMMPS order
                 heads = [w.strip() for w in ws if isinstance(w, str) and w.strip() in ('Masses', 'Pair Coeffs', 'Bond Coeffs', 'Angle Coeffs', 'Dihedral Coeffs', 'Improper Coeffs', 'Atoms', 'Bonds', 'Angles', 'Dihedrals', 'Impropers')]
-                want_heads = ['Masses', 'Pair Coeffs', 'Bond Coeffs', 'Angle Coeffs', 'Dihedral Coeffs', 'Improper Coeffs', 'Atoms', 'Bonds', 'Angles', 'Dihedrals', 'Impropers'] if name == 'full-structure' else ['Masses', 'Atoms']
+                want_heads = {'full-structure': ['Masses', 'Pair Coeffs', 'Bond Coeffs', 'Angle Coeffs', 'Dihedral Coeffs', 'Improper Coeffs', 'Atoms', 'Bonds', 'Angles', 'Dihedrals', 'Impropers'],
+                              'tables-without-terms': ['Masses', 'Pair Coeffs', 'Bond Coeffs', 'Angle Coeffs', 'Dihedral Coeffs', 'Improper Coeffs', 'Atoms'],
+                              'bare-structure': ['Masses', 'Atoms']}[name]
                 S.add(I, "%s/sections/headers-present-in-order#%d" % (tag, n), p.pc, z3.BoolVal(heads == want_heads), clause='sections')
                 S.add_canary(I, "%s/canary#%d" % (tag, n), [h for h in p.pc if not z3.is_quantifier(h)])
             for n, p in enumerate(raises):
